@@ -36,7 +36,7 @@ class C11(BaseCheck):
                       'tag-reuse')
   ASSUMPTIONS = ('a tag counts as answered when the client has read the last byte of any R-frame carrying it '
                  '(known from the simulated socket\'s read offsets)',)
-  QUICK_CASES = 240
+  QUICK_CASES = 720
   THOROUGH_CASES = 6000
   QUICK_WALL = 50
   THOROUGH_WALL = 420
